@@ -2,10 +2,9 @@ package main
 
 import (
 	"fmt"
+	"go/constant"
 	"go/token"
 	"go/types"
-	"sort"
-	"strings"
 
 	"golang.org/x/tools/go/ssa"
 )
@@ -579,5 +578,76 @@ func (c *Ctx) sameStreamValue(a, b ssa.Value) bool {
 	return false
 }
 
-var _ = sort.Strings
-var _ = strings.Join
+
+
+
+// ---------------------------------------------------------------------------
+// R-EOF-ACTION-PAST (added after seed C19): the stream's eof_action is consulted only once the end has been
+// passed (end_of_file was delivered), not when the cursor merely stands at the end.
+
+func ruleEOFActionPast(c *Ctx, r *Report) {
+	const rule = "R-EOF-ACTION-PAST"
+	past, _ := c.Engine.Pkg.Scope().Lookup("endOfStreamPast").(*types.Const)
+	if past == nil {
+		// fall back: the largest constant of the end-of-stream enum
+		if t := c.engType("endOfStream"); t != nil {
+			if e := c.enumOf(t); e != nil {
+				for _, k := range e.consts {
+					if past == nil || constant.Compare(k.Val(), token.GTR, past.Val()) {
+						past = k
+					}
+				}
+			}
+		}
+	}
+	if past == nil {
+		r.undecided(rule, "anchor:endOfStreamPast", "-", "locate the 'past end of stream' constant", "not found")
+		return
+	}
+	pastV, _ := constant.Int64Val(past.Val())
+	n := 0
+	for _, fn := range c.LibFuncs() {
+		if recvNamed(fn) != "Stream" {
+			continue
+		}
+		eachInstr(fn, func(in ssa.Instruction) {
+			// a use of the eofAction field in a comparison = consulting the action
+			bo, ok := in.(*ssa.BinOp)
+			if !ok {
+				return
+			}
+			if _, ok := loadsField(bo.X, "Stream", "eofAction"); !ok {
+				return
+			}
+			n++
+			key := fmt.Sprintf("%s/eofAction[%d]", fname(fn), n)
+			desc := "eof_action is applied only in state past"
+			good := false
+			for f := range c.factsAt(bo.Block()) {
+				cmp, ok := f.cond.(*ssa.BinOp)
+				if !ok {
+					continue
+				}
+				if _, ok := loadsField(cmp.X, "Stream", "endOfStream"); !ok {
+					continue
+				}
+				k, isK := constInt(cmp.Y)
+				if !isK {
+					continue
+				}
+				if k == pastV && ((cmp.Op == token.EQL && f.pol) || (cmp.Op == token.NEQ && !f.pol)) {
+					good = true
+				}
+			}
+			if good {
+				r.ok(rule, key, c.at(bo), desc, "dominated by endOfStream == past", true)
+			} else {
+				r.bad(rule, key, c.at(bo), desc, "the action is consulted without knowing the stream is past its end: at the last unit (state at) a reset/error fires one step early, and the un-read of a peek or of read_term is lost")
+			}
+		})
+	}
+	if n == 0 {
+		r.bad(rule, "Stream/eofAction", "-", "eof_action is applied only in state past", "no method of Stream consults eofAction")
+	}
+	r.analysed(rule, fmt.Sprintf("%d consultations of Stream.eofAction", n))
+}
